@@ -981,6 +981,7 @@ def sorted_call(self, n, env):
     env.locals["g_perm"] = V(None, FunS([INT], INT, name="perm!%d" % E.Path._hc[0]))
     env.locals["g_pinv"] = V(None, FunS([INT], INT, name="pinv!%d" % E.Path._hc[0]))
     env.locals["g_sorted_in"] = S
+    env.locals["g_sorted"] = V(R, S.s)          # the sorted sequence itself (contracts may name it in exit hints)
     return V(R, S.s)
 
 
